@@ -32,7 +32,10 @@ def c06(c):
     units = [
         dict(name="c06_leaf", srcs=[D + "c06_leaf.cpp"], build="plain", defs=FLAGMODE),
     ]
-    runs = sliced("c06_leaf", c.ncpu)
+    runs = sliced("c06_leaf", max(4, c.ncpu - 3))
+    for n in ["ilp32", "narrow", "wide"]:
+        units.append(dict(name="c06_paths_" + n, srcs=[D + "c06_paths.cpp"], build="asan", defs=EXC + ["CFG=vsbx_" + n]))
+        runs.append(dict(unit="c06_paths_" + n, label="c06_paths[%s]" % n))
     return dict(units=units, runs=runs, evidence=dict(
         level="exploration",
         rule="case = (destination type, source type, source value) fed to convert_type_fundamental, and (path, ABI, type, value) "
